@@ -64,6 +64,9 @@ pub enum IoOp {
     ReadToString,
     /// BufRead::read_line (same payload)
     ReadLine,
+    /// async traits only: create the future of write / read / flush / fill_buf and drop it without polling it;
+    /// nothing may have happened (futures are inert until polled)
+    Unpolled(u8, u32),
 }
 
 #[derive(Debug, Clone, PartialEq, Eq, Hash, Serialize, Deserialize)]
@@ -127,6 +130,7 @@ pub trait ByteDeq {
     /// provided methods of the embedded traits: Ok(Ok) = done, Ok(Err(true)) = UnexpectedEof / WriteZero, Ok(Err(false)) = other error
     fn e_read_exact(&mut self, api: Api, d: &mut [u8]) -> Option<Result<(), bool>>;
     fn e_write_all(&mut self, api: Api, s: &[u8]) -> Option<Result<(), String>>;
+    fn e_unpolled(&mut self, which: u8, s: &[u8]);
 }
 
 #[cfg(feature = "eio")]
@@ -246,6 +250,22 @@ impl<const N: usize> ByteDeq for CircularBuffer<N, u8> {
             #[cfg(feature = "eio-async")]
             Api::EioAsync => poll_once(embedded_io_async::Read::read_exact(self, d)).map(|r| r.map_err(|e| matches!(e, ReadExactError::UnexpectedEof))),
             _ => panic!("api not compiled in"),
+        }
+    }
+    #[allow(unused_variables)]
+    fn e_unpolled(&mut self, which: u8, s: &[u8]) {
+        #[cfg(feature = "eio-async")]
+        {
+            let mut d = [0u8; 5];
+            match which % 4 {
+                0 => drop(embedded_io_async::Write::write(self, s)),
+                1 => drop(embedded_io_async::Read::read(self, &mut d)),
+                2 => drop(embedded_io_async::Write::flush(self)),
+                _ => drop(embedded_io_async::BufRead::fill_buf(self)),
+            }
+            if d != [0u8; 5] {
+                panic!("a read future that was never polled wrote to its destination");
+            }
         }
     }
     #[allow(unused_variables)]
@@ -855,6 +875,14 @@ pub fn run_io_case(case: &IoCase) -> Result<u64, String> {
                 }
                 model.drain(..lim);
             }
+            IoOp::Unpolled(which, m) => {
+                if api != Api::EioAsync {
+                    continue;
+                }
+                let src = vec![0x42u8; *m as usize];
+                guard("creating and dropping a future", || a.b.e_unpolled(*which, &src))?;
+                // the model and the std twin see no call at all
+            }
             IoOp::ReadToString | IoOp::ReadLine => {
                 if api != Api::Std {
                     continue;
@@ -952,6 +980,11 @@ pub fn enum_ops(n: usize, len: usize, full: bool) -> Vec<IoOp> {
     ops.push(IoOp::CopyOut);
     ops.push(IoOp::ReadToString);
     ops.push(IoOp::ReadLine);
+    for w in 0..4u8 {
+        for m in [0u32, 1, n as u32, (n + 1) as u32] {
+            ops.push(IoOp::Unpolled(w, m));
+        }
+    }
     for k in 0..=(len + 1) as u32 {
         ops.push(IoOp::Bytes(k));
         ops.push(IoOp::TakeToEnd(k));
@@ -1054,6 +1087,7 @@ pub fn io_case_strategy(api: Api, max_ops: usize) -> proptest::strategy::BoxedSt
                 1 => Just(IoOp::CopyOut),
                 1 => Just(IoOp::ReadToString),
                 1 => Just(IoOp::ReadLine),
+                2 => (0u8..4, sz.clone()).prop_map(|(w, m)| IoOp::Unpolled(w, m)),
             ];
             (Just(n), any::<u16>(), any::<u16>(), 0u8..3, proptest::sample::select(vec![0u8, 0xFF, 0x5A]), proptest::collection::vec(op, 0..=max_ops))
         })
